@@ -196,6 +196,7 @@ var extStructs = map[string][]Field{
 	"ext.T":  {{Name: "A", Ty: Basic("int")}, {Name: "b", Ty: Basic("string")}, {Name: "C", Ty: Slice(Basic("int"))}},
 	"ext.U":  {{Name: "X", Ty: Basic("int")}, {Name: "Y", Ty: Basic("string")}},
 	"ext.V":  {{Name: "a", Ty: Basic("bool")}, {Name: "b", Ty: Basic("int64")}},
+	"ext.X":  {{Name: "Name", Ty: Basic("string")}, {Name: "ttl", Ty: Basic("int64")}, {Name: "at", Ty: Named("oext", "T")}, {Name: "when", Ty: Slice(Basic("int"))}},
 	"oext.T": {{Name: "a", Ty: Basic("bool")}, {Name: "B", Ty: Basic("string")}},
 	"oext.W": {{Name: "P", Ty: Ptr(Basic("int"))}, {Name: "Q", Ty: Map(Basic("string"), Basic("int"))}},
 }
